@@ -28,6 +28,9 @@ pub struct Case {
     /// walk with `LinkBehavior::ReadTarget` (link errors are the only error items tolerated)
     #[serde(default)]
     pub follow: bool,
+    /// a maximum depth (from the directory given to the walk) for the underlying walk
+    #[serde(default)]
+    pub max_depth: Option<usize>,
 }
 
 fn gen_perm(t: &mut Tape, n: usize) -> Vec<usize> {
@@ -71,7 +74,7 @@ impl Property for C16 {
         448
     }
     fn required_counters(&self) -> Vec<&'static str> {
-        vec!["orders_run", "stacks_with_disagreeing_layers", "tree_then_file_on_same_directory", "two_tree_verdicts_same_directory", "upstream_discarded_entry_observed_downstream", "distinct_orders_2plus", "read_target_runs"]
+        vec!["orders_run", "stacks_with_disagreeing_layers", "tree_then_file_on_same_directory", "two_tree_verdicts_same_directory", "upstream_discarded_entry_observed_downstream", "distinct_orders_2plus", "read_target_runs", "depth_bounded_runs"]
     }
     fn decode(&self, t: &mut Tape) -> Case {
         let tree = gen_tree(t, &TreeCfg { links: true, ..TreeCfg::default() });
@@ -100,7 +103,8 @@ impl Property for C16 {
         let k = 2 + t.below(3);
         let perms = (0..k).map(|_| gen_perm(t, n)).collect();
         let follow = t.chance(64);
-        Case { tree, base, under, layers, perms, follow }
+        let max_depth = if t.chance(56) { Some(1 + t.below(4)) } else { None };
+        Case { tree, base, under, layers, perms, follow, max_depth }
     }
     fn shrink(&self, c: &Case) -> Vec<Case> {
         let mut out = Vec::new();
@@ -133,6 +137,9 @@ impl Property for C16 {
         }
         if !matches!(c.under, Under::Path) {
             out.push(Case { under: Under::Path, ..c.clone() });
+        }
+        if c.max_depth.is_some() {
+            out.push(Case { max_depth: None, ..c.clone() });
         }
         out
     }
@@ -180,8 +187,17 @@ impl Property for C16 {
                 }
             }
         }
-        let entries = underlying_entries(&base_abs, glob_rt.as_ref(), case.follow, None);
-        let beh = WalkBehavior { link: if case.follow { wax::walk::LinkBehavior::ReadTarget } else { wax::walk::LinkBehavior::ReadFile }, ..WalkBehavior::default() };
+        // a depth bound counts components below the directory given to the walk (C15), the
+        // invariant prefix of a glob included
+        let entries: Vec<(String, bool)> = underlying_entries(&base_abs, glob_rt.as_ref(), case.follow, None)
+            .into_iter()
+            .filter(|(r, _)| case.max_depth.map_or(true, |m| r.split('/').filter(|c| !c.is_empty()).count() <= m))
+            .collect();
+        let mut beh = WalkBehavior { link: if case.follow { wax::walk::LinkBehavior::ReadTarget } else { wax::walk::LinkBehavior::ReadFile }, ..WalkBehavior::default() };
+        if let Some(m) = case.max_depth {
+            beh.depth = wax::walk::DepthMax(m).into();
+            st.count("depth_bounded_runs");
+        }
         if case.follow {
             st.count("read_target_runs");
         }
